@@ -44,7 +44,7 @@ var requestLayoutsOf = map[int][]string{1: {rfc8907.AuthenStart, rfc8907.AuthenC
 func runC19(b *mon.B) {
 	r := gen.New(uint64(b.Seed), 0xC19, uint64(b.Index))
 	srv := startLibServer()
-	srv.Net.KeepLog = false
+	srv.Net.SetKeepLog(false)
 	defer srv.Stop()
 	caseNo := 0
 	connNo := 0
